@@ -294,7 +294,10 @@ static pid_t process_fork(const int *except, size_t num_except)
 
 finish:
   if (r < 0) {
-    (void) !write(pipe.write, &errno, sizeof(errno));
+    // Not every failure above sets `errno` (`pthread_sigmask`, the descriptor
+    // limit check) so report `r` itself.
+    int error = -r;
+    (void) !write(pipe.write, &error, sizeof(error));
     _exit(EXIT_FAILURE);
   }
 
@@ -417,7 +420,8 @@ int process_start(pid_t *process,
 
   child:
     if (r < 0) {
-      (void) !write(pipe.write, &errno, sizeof(errno));
+      int error = -r;
+      (void) !write(pipe.write, &error, sizeof(error));
       _exit(EXIT_FAILURE);
     }
 
